@@ -20,6 +20,8 @@ use std::collections::BTreeMap;
 use std::io::Write;
 use std::sync::Mutex;
 
+pub mod ahost;
+
 pub const PAD: i64 = -1;
 pub const PCONT: i64 = -2;
 pub const PANY: i64 = -3;
@@ -391,6 +393,12 @@ fn is_live_range_or_static(addr: usize, len: usize) -> bool {
     if is_live_range(addr, len) {
         return true;
     }
+    // with the low arena every guest heap address lies inside the arena and is never reused: an address in there that is
+    // not inside a live block is freed (or never allocated) heap memory
+    let base = arena();
+    if base != 0 && addr >= base && addr < base + ARENA_SIZE {
+        return false;
+    }
     // pointing into freed heap cannot be told apart from stack memory by address alone; accept unless the range starts
     // inside a live block (then it overruns it)
     !starts_inside_live_block(addr)
@@ -520,6 +528,13 @@ pub fn vector() -> Value {
 }
 
 pub fn import_call(key: &str, args: &[u64]) -> u64 {
+    if key.contains("[async-lower]") {
+        return ahost::async_import(key, args);
+    }
+    if key.contains("[task-return]") {
+        ahost::task_return(key, args);
+        return 0;
+    }
     let h = *HANDLER.lock().unwrap();
     if let Some(h) = h {
         let was = GUEST.swap(false, std::sync::atomic::Ordering::Relaxed);
